@@ -98,6 +98,76 @@ def run(ctx):
             r.fail(rule, fn, '%s breaks the key discipline of the reference index: %s' % (fn, '; '.join(probs[:3])), loc=b.loc)
         else:
             r.ok(rule, fn, '%s: forward map only at source_node, inverse sets only gain / lose source_node, no foreign rewrites' % fn, loc=b.loc)
+    # the inverse entry of a target goes only when no reference from the source to it is left
+    rule = 'inverse-only-when-unreferenced'
+    b = db.body(R + 'delete_reference')
+    if b is not None:
+        F = ctx.facts(b)
+        def derives_from_difference(local, depth=0, seen=None):
+            seen = seen or set()
+            if depth > 8 or local in seen:
+                return False
+            seen.add(local)
+            for d in b.defs().get(local, []):
+                ops = []
+                if d[0] == 'call':
+                    if d[2].callee.endswith('HashSet::difference'):
+                        return True
+                    ops = d[2].args
+                elif d[0] == 'stmt':
+                    rv = d[3]
+                    ops = [rv[1]] if rv[0] in ('use', 'cast') else ([[ 'cp', rv[2]]] if rv[0] == 'ref' else [])
+                for o in ops:
+                    if o[0] in ('cp', 'mv') and derives_from_difference(o[1][0], depth + 1, seen):
+                        return True
+            return False
+        rem = [c for c in b.calls() if SETOP.search(c.callee) and c.callee.endswith('::remove') and c.args and 'referenced_by_map' in fmt_sym(b, F.sym_operand(c.args[0]))]
+        if not rem:
+            r.lost(rule, 'inverse-remove', 'removal from an inverse set not found in delete_reference')
+        for i, c in enumerate(rem):
+            n += 1
+            setsym = F.sym_operand(c.args[0])
+            # key of the get_mut that produced the set
+            keyroot = None
+            def find_getmut(s_):
+                if isinstance(s_, tuple) and s_:
+                    if s_[0] == 'call' and s_[1].endswith('::get_mut') and len(s_[2]) == 2:
+                        return s_[2][1]
+                    for x in s_:
+                        y = find_getmut(x)
+                        if y is not None:
+                            return y
+                return None
+            key = find_getmut(setsym)
+            ok = None
+            if key is not None:
+                def find_iter_local(s_):
+                    if isinstance(s_, tuple) and s_:
+                        if s_[0] == 'call' and s_[1].endswith('Iterator::next') and s_[2]:
+                            t = s_[2][0]
+                            while t[0] in ('ref', 'deref'):
+                                t = t[1]
+                            if t[0] == 'place':
+                                return t[1]
+                        for x in s_:
+                            y = find_iter_local(x)
+                            if y is not None:
+                                return y
+                    return None
+                il = find_iter_local(key)
+                if il is not None and derives_from_difference(il):
+                    ok = 'the key iterates over HashSet::difference(targets before, targets after)'
+            if ok is None:
+                for l, e in F.literals_at(c.bb):
+                    t = fmt_lit(b, l)
+                    if re.search(r'Iterator::any\(.*\) == False$', t) or re.search(r'(contains|has_reference)\(.*\) == False$', t):
+                        ok = 'guarded by `%s`' % t[:80]
+            if ok:
+                r.ok(rule, 'inverse-remove#%d' % i, 'source_node leaves an inverse set only for targets it no longer references: ' + ok, loc=c.loc)
+            else:
+                r.fail(rule, 'inverse-remove#%d' % i, 'delete_reference removes the source from the inverse set of a target without establishing that no other '
+                       'reference from the source to that target is left (two references of different types to one target: deleting one hides the other '
+                       'from inverse lookups)', loc=c.loc)
     # the removal predicate of delete_reference
     rule = 'delete-predicate'
     cls = db.find_bodies(r'^' + re.escape(R) + r'delete_reference::\{closure#\d+\}$')
